@@ -381,7 +381,7 @@ func TestRandomCanonical(t *testing.T) {
 		Check:      checkSchema(false),
 		NonTrivial: rich,
 		Classes:    classes,
-		Quick:      2000, Thorough: 30000,
+		Quick:      3500, Thorough: 30000,
 	})
 }
 
@@ -393,7 +393,7 @@ func TestRandomLoose(t *testing.T) {
 		Check:      checkSchema(true),
 		NonTrivial: rich,
 		Classes:    classes,
-		Quick:      700, Thorough: 10000,
+		Quick:      1000, Thorough: 10000,
 	})
 }
 
@@ -405,7 +405,7 @@ func TestRandomBig(t *testing.T) {
 		Check:      checkSchema(false),
 		NonTrivial: rich,
 		Classes:    classes,
-		Quick:      150, Thorough: 2500,
+		Quick:      200, Thorough: 2500,
 	})
 }
 
